@@ -1,6 +1,7 @@
 SPECIFICATION Spec
 CONSTANTS
   FollowRootLink = TRUE
+  Wide = FALSE
   EmitTR = FALSE
 CHECK_DEADLOCK FALSE
 INVARIANTS OutsideUntouched
